@@ -39,6 +39,10 @@ TReset ==
                  kallowed |-> Val(e.kallowed), kmems |-> Val(e.kmems)]
      IN /\ e.loadret = 0
         /\ e.kind \in {"native", "synth", "xml", "xmld"}
+        /\ (e.kind = "native") <=> (e.desc = "-")
+        /\ (e.thr = 1) <=> ("helper" \in DOMAIN e.aff)
+        /\ DOMAIN e.aff \subseteq {"main", "helper"}
+        /\ \A k \in 1..Len(e.chosen) : e.chosen[k] = -1 \/ e.chosen[k] \in Val(e.cs)     \* t1..t4 denote PUs of the topology
         /\ Finite(e.cs) /\ Finite(e.cc) /\ Finite(e.ns) /\ Finite(e.nc) /\ Finite(e.kallowed)
         /\ ntp.cs \subseteq ntp.cc /\ ntp.ca \subseteq ntp.cc /\ ntp.cs # {}
         /\ ntp.ns \subseteq ntp.nc /\ ntp.na \subseteq ntp.nc /\ ntp.ns # {}
@@ -50,7 +54,7 @@ TReset ==
         \* the recorder starts every behaviour unbound, with the default memory policy
         /\ "main" \in DOMAIN e.aff
         /\ \A t \in DOMAIN e.aff : Val(e.aff[t]) = ntp.kallowed
-        /\ e.mp.mode = 0
+        /\ e.mp.mode = 0 /\ e.mp.nodes = <<>>
         /\ tp' = ntp
         /\ st' = [aff |-> AffOf(e.aff), mp |-> MpOf(e.mp), mb |-> Firsttouch, ab |-> Firsttouch]
 
@@ -61,6 +65,13 @@ TCall ==
          r == [ret |-> e.ret, err |-> e.err, out |-> Val(e.out), opol |-> e.opol, sys |-> SysOf(e.sys), nq |-> e.nq,
                aff |-> AffOf(e.aff), mp |-> MpOf(e.mp)]
      IN /\ e.op \in AllOps
+        \* shape of the call the recorder made
+        /\ e.len \in {0, 1}
+        /\ (e.op \notin (CpuSetOps \cup MemSetOps)) => e.set = <<>>
+        /\ (e.op \notin MemSetOps) => e.pol = 0
+        /\ (e.op \notin (MemGetOps \ {"get_area_memlocation"})) => e.opol = 0
+        /\ (e.op \notin (CpuGetOps \cup MemGetOps)) => e.out = <<>>
+        /\ (e.op = "load") => e.tgt \in {"default", "x86"}
         /\ e.tgt \in DOMAIN st.aff \/ e.op = "load"
         /\ DOMAIN e.aff = DOMAIN st.aff
         /\ e.fret = 0                         \* hwloc_free of what alloc_membind returned
